@@ -10,9 +10,11 @@ from .. import matgen as M
 
 ID = "C04"
 PROPS = ["props/C04.v"]
-COQ_EXTRA = ["model/ShowR.vo"]
+COQ_EXTRA = ["model/ShowR.vo", "model/ShowSR.vo"]
 RIMPORTS = ("From Coq Require Import List NArith ZArith QArith Qcanon Bool Arith.\nImport ListNotations.\n"
             "Require Import Mat ShowM Mat2 ShowR.\nOpen Scope N_scope.")
+SRIMPORTS = ("From Coq Require Import List NArith ZArith QArith Qcanon Bool Arith.\nImport ListNotations.\n"
+             "Require Import Mat ShowM Mat2 ShowR SpecRec ShowSR.\nOpen Scope N_scope.")
 RULE = ("histories build -> replay*: training frames (1-8 rows, nulls, object/category/str text columns), term lists with interactions and literal "
         "scalings, rank reduction on/off, three null policies; follow-up frames = the training data, row subsets, duplications and permutations, "
         "frames missing levels, with and without pickling the spec; formulas with stateful transforms (center, scale, poly, bs, cr, cc, C with "
@@ -93,6 +95,7 @@ def _model_stream(ctx: Ctx):
     from formulaic import model_matrix
     rng = ctx.fork("replay")
     lits, descr = [], []
+    srlits, srdescr = [], []
     n = ctx.n(450, 8000)
     tries = 0
     while len(lits) < n and tries < 10 * n:
@@ -108,6 +111,10 @@ def _model_stream(ctx: Ctx):
             continue
         ms = mm.model_spec
         slit = spec_literal(ms, terms, efr, na)
+        # what the build recorded: model `spec_of` against the implementation's ModelSpec
+        srlits.append("{| sr_frame := %s; sr_nrows := %d%%nat; sr_cfg := %s; sr_terms := %s; sr_spec := %s |}" % (
+            frame.coq(), frame.n, M.cfg_coq(efr, na, []), M.terms_coq(terms), slit))
+        srdescr.append({"train": frame.describe(), "terms": terms, "ensure_full_rank": efr, "na_action": na})
         mode = rng.choice(["same", "subset", "dup", "perm"])
         frame2, ix = derive_frame(rng, frame, mode)
         cd = sorted(set(rng.randrange(frame2.n) for _ in range(rng.choice([0, 0, 1]))))
@@ -145,6 +152,7 @@ def _model_stream(ctx: Ctx):
         if len(lits) <= 3:
             ctx.sample({k: rp[k] for k in ("terms", "mode", "pickled", "implementation")})
     ctx.run_cases("replay", RIMPORTS, "", "rcase", "chk_replay", lits, descr, shard=150)
+    ctx.run_cases("recordedspec", SRIMPORTS, "", "srcase", "chk_specrec", srlits, srdescr, shard=150)
 
 
 TRANSFORM_FORMULAS = [
